@@ -17,6 +17,7 @@ type Gen struct {
 	// per-run operand pools (swarm: few values, so that tasks collide on them)
 	decs      []string
 	lits      []string
+	jlits []string // recurring JSON number tokens (P13)
 	heavy     bool // rare runs with extreme arguments
 	wildSpecs bool // also produce malformed format directives (P20: totality)
 	focus     bool // a focus program: the tree has new shared state, schedules lean towards synchronisation events
